@@ -26,7 +26,7 @@ PRELOAD = ['frame.geometry.geometry', 'frame.netlist.netlist', 'frame.die.die', 
            'tools.floorset_parser.floor_set_manager.strop', 'tools.floorset_parser.floor_set_manager.utils.utils',
            'tools.glbfloor.optimization', 'tools.netgen.netgen', 'numpy']
 RULE = ("all operation sequences of length <= 2 (quick) / <= 3 (thorough) over a 19-operation alphabet, each executed in a fresh interpreter forked from a pristine "
-        "(imports only) process; after each history every one of 14 probes is run in its own forked child and its canonical digest compared with the digest of the "
+        "(imports only) process; after each history every one of 15 probes is run in its own forked child and its canonical digest compared with the digest of the "
         "same probe forked from the pristine interpreter. states = distinct fingerprints of module-level mutable state reached; transitions = operations executed; "
         "traces validated = (history, probe) pairs compared.")
 ASSUMPTIONS = ["history designs are within a factor of 1000 of the probed design's scale (the statement's own bound)",
@@ -130,6 +130,7 @@ def op_alloc(scale=1.0, variant=1):
     a = Allocation(alloc_doc(scale, variant))
     a = a.refine(0.5, 2).griddify().uniform_refinement_depth()
     a.write_yaml()
+    a.center(['M0', 'M1', 'M2']), a.center('M1'), a.area(['M0', 'M2'])
     return a
 
 
@@ -422,9 +423,29 @@ def probe_bad_dies():
     doc = dec_die_doc(1.0, 0)
     doc['regions'].append([0.15 - 1e-7, 0.25, 0.1, 0.1, 'y'])
     docs.append(doc)
+    # ... and regions overlapping the obstacle on strips of 1e-2 .. 1e-4 of their size
+    for strip in (1e-3, 1e-4, 1e-5):
+        doc = dec_die_doc(1.0, 0)
+        doc['regions'].append([0.15 + strip, 0.05, 0.1, 0.1, 'z'])
+        docs.append(doc)
     for doc in docs:
         try:
             Die(doc)
+            out.append('accepted')
+        except AssertionError:
+            out.append('rejected')
+    return out
+
+
+def probe_bad_allocs():
+    """allocations whose cells overlap on a strip (1e-2 .. 1e-5 of a cell) or merely touch: the accept / reject verdict
+    depends on the area tolerance in force"""
+    from frame.allocation.allocation import Allocation
+    out = []
+    for strip in (1e-2, 1e-3, 1e-4, 1e-5, 0.0):
+        doc = [[[0.5, 0.5, 1, 1], {'M0': 0.5}], [[1.5 - strip, 0.5, 1, 1], {'M1': 0.5}], [[0.5, 1.5 - strip / 2, 1, 1], {'M0': 0.25}]]
+        try:
+            Allocation(doc)
             out.append('accepted')
         except AssertionError:
             out.append('rejected')
@@ -438,6 +459,8 @@ def probe_alloc():
     for b in (a.refine(0.5, 1), a.griddify(), a.refine(1.0, 2).uniform_refinement_depth()):
         out.append(dg_alloc(b, 0.1))
         out.append([(m, r9(b.area(m), 0.01)) for m in ('M0', 'M1', 'M2')])
+        out.append([(r9(c.x, 0.1), r9(c.y, 0.1)) for c in (b.center('M0'), b.center(['M0', 'M1']), b.center(['M2', 'M1', 'M0']))])
+        out.append(r9(b.area(['M1', 'M2']), 0.01))
     return out
 
 
@@ -547,7 +570,7 @@ def probe_writers():
 PROBES = {
     'netlist': probe_netlist, 'netlist_dec': probe_netlist_dec, 'bad_netlists': probe_bad_netlists, 'die': probe_die,
     'bad_dies': probe_bad_dies, 'alloc': probe_alloc, 'initial_alloc': probe_initial_alloc, 'pb': probe_pb, 'legal': probe_legal,
-    'strop': probe_strop, 'force_spectral': probe_force_spectral, 'rect': probe_rect, 'writers': probe_writers, 'yaml_text': probe_yaml_text,
+    'bad_allocs': probe_bad_allocs, 'strop': probe_strop, 'force_spectral': probe_force_spectral, 'rect': probe_rect, 'writers': probe_writers, 'yaml_text': probe_yaml_text,
 }
 
 
